@@ -56,7 +56,9 @@ def filters_for(draw, wav, nmin=1, nmax=3, inside=False):
     nu_lo, nu_hi = om.C_UM_HZ / wav[-1], om.C_UM_HZ / wav[0]
     for i in range(draw(st.integers(nmin, nmax))):
         n = draw(st.integers(2, 12))
-        if inside:
+        if inside and nu_hi / nu_lo < 2.5:
+            a, b = nu_lo * 1.001, nu_hi / 1.001
+        elif inside:
             a = nu_lo * draw(gen.logfloat(1.05, 1.5))
             b = min(nu_hi / 1.05, a * draw(gen.logfloat(1.3, 30.)))
         else:
